@@ -421,6 +421,11 @@ def predict_campaign(sess, rng, count, kinds=KINDS, max_teams=8, max_players=8):
         if rng.random() < 0.1:
             shape = [rng.choice([8, 16])] * rng.randint(2, 4)
         teams = build_teams(rng, mh, shape, beta, False)
+        if rng.random() < 0.15:  # exact coincidences (ordinal ties, mirrored line-ups, round-number sigmas, ...)
+            tv = [[(p.mu, p.sigma) for p in t] for t in teams]
+            coincide(rng, tv, 0.0)
+            if all(sg > 0 for t in tv for (_m, sg) in t):
+                teams = make_teams(mh, tv, rng)
         if rng.random() < 0.2:  # identical teams: probability ties
             k = rng.randrange(len(teams))
             for i in range(len(teams)):
@@ -476,7 +481,9 @@ def coincide(rng, vals, tau):
             vals[k][l] = vals[i][j]
     elif r < 0.52:
         sigma_pattern(rng, vals)
-    elif r < 0.62 and n >= 2:
+    elif r < 0.74:
+        ordinal_ties(rng, vals)
+    elif r < 0.84 and n >= 2:
         # two teams of equal strength on paper, differently composed: the same sigmas in another order (team variances equal
         # to the last bit, members not), the mus their own or mirrored too
         multi = [i for i in range(n) if len(vals[i]) >= 2]
@@ -489,6 +496,25 @@ def coincide(rng, vals, tau):
             if rng.random() < 0.3:
                 mus = [m for (m, _s) in vals[i]][::-1]
             vals[k] = list(zip(mus, sgs))
+
+
+def ordinal_ties(rng, vals):
+    """Players whose ordinals mu - 3 sigma are equal to the last bit while their (mu, sigma) differ - ratings order by the
+    ordinal and are equal by (mu, sigma), so min / max / sorted / == on rating objects disagree exactly here: all members of
+    one team, or the (single) players of two teams.  Values on a dyadic grid, so the ordinals are exact (in place)."""
+    n = len(vals)
+    base_mu = float(rng.choice([25, 20, 10, 0, -5, 30]))
+    base_sg = float(rng.choice([5, 2, 4, 8, 1]))
+    steps = rng.sample([0.0, 0.5, 1.0, 2.0, 3.0, 5.0, -0.5, -0.75], 4)
+    twins = [(base_mu + 3.0 * d, base_sg + d) for d in steps if base_sg + d > 0]
+    if rng.random() < 0.5:
+        i = rng.randrange(n)
+        m = max(2, min(len(vals[i]), len(twins)))
+        vals[i] = twins[:m]
+    else:
+        k = min(n, len(twins))
+        for i in rng.sample(range(n), k):
+            vals[i] = [twins.pop()] + list(vals[i][1:] if rng.random() < 0.3 else [])
 
 
 SIGMA_PATTERNS = {2: [(3, 4), (1, 1), (5, 12)], 3: [(5, 1, 7), (1, 1, 1), (13, 7, 17), (2, 3, 6), (5, 7, 1)],
@@ -1283,6 +1309,13 @@ def object_campaign(sess, rng, count, kinds=KINDS):
             a = rng.choice(pool)
             b = rng.choice(pool) if rng.random() < 0.7 else rng.choice(foreign)
             sess.compare(rng.choice(["lt", "le", "gt", "ge", "eq", "ne"]), a, b)
+        # the same numbers written differently: ints and floats, the two zeros, a bool - equal as numbers, so equal ratings
+        for (m1, s1, m2, s2) in [(30, 10, 30.0, 10.0), (0.0, 1.0, -0.0, 1.0), (25, 8.0, 25.0, 8), (1, 1, True, 1.0), (-3, 0, -3.0, -0.0),
+                                 (2 ** 53, 2.0, float(2 ** 53), 2), (1e16, 5, 10 ** 16, 5.0)]:
+            a, b = mh.m.rating(m1, s1), mh.m.rating(m2, s2)
+            for cop in ("eq", "ne", rng.choice(["le", "ge", "lt", "gt"])):
+                sess.compare(cop, a, b)
+            sess.sort([b, a, mh.m.rating(m1, s1 + 1)])
         # operands that are not ratings but are made of the rating's own data: the forms a rating is stored or shown in
         a = rng.choice(pool)
         own_forms = [[a.mu, a.sigma], (a.mu, a.sigma), [a.mu, a.sigma, a.name], {"mu": a.mu, "sigma": a.sigma}, a.mu, a.sigma,
